@@ -95,6 +95,8 @@ func optsFor(prop, tier string) (core.GenOpts, int) {
 		o.Handlers = 0.8
 	case "C08":
 		o.Handlers, o.Faults, o.Timeouts = 1.0, 0.9, 0.05
+		o.FinalFaults, o.WideOps = 0.6, 0.35
+		o.Motifs = []string{"sparse", "sparse", "random", "multi", "mutex"}
 		n = 800
 	case "C11":
 		n = 300
